@@ -19,6 +19,14 @@
 //! `rand <hex limit expression or empty> <n> <term ignored>`
 //!     One compilation with `n` calls `math.random(<limit>)` (precision 20, compressed);
 //!     answer `ok:<v1,v2,..>` (the printed values) or `err:<hex message>`.
+//! `randseed <state> <hex limit expression or empty> <bound or 0> <term ignored>`
+//!     Puts fastrand's THREAD-LOCAL generator (the one rsass draws from; harness and rsass link the same
+//!     fastrand) into a chosen state and compiles ONE `math.random(<limit>)` on this thread.
+//!     state: `zero0` (the next 64-bit word is 0 because the state becomes 0), `zero1` (.. because
+//!     state ^ WY_CONST_1 becomes 0), `max` (a searched state whose next unit draw is the largest found
+//!     among 2^22 candidates), `seed:<u64>`.  Answer: `ok:<value>` | `err:<hex>`, then
+//!     `seed=<u64>`, `f=<bits of the f64() draw a generator in that state makes>`,
+//!     `i=<the i64(0..bound) draw it makes>` (bound > 0 only), all from a private clone of the generator.
 use crate::util::*;
 use rsass::output::{Format, Style};
 
@@ -240,6 +248,59 @@ pub fn run(op: &str, f: &[&str]) -> Option<String> {
                 ),
                 Outcome::Err(m) => format!("err:{}", hex(m.as_bytes())),
             })
+        }
+        "randseed" => {
+            let limit = unhex_str(f.get(1)?);
+            let bound: i64 = f.get(2)?.parse().ok()?;
+            let zero = |c: u64| {
+                // candidates for the generator's increment (differs between fastrand releases)
+                [0x2d35_8dcc_aa6c_78a5u64, 0xa076_1d64_78bd_642f]
+                    .iter()
+                    .map(|inc| c.wrapping_sub(*inc))
+                    .find(|s| fastrand::Rng::with_seed(*s).u64(..) == 0)
+            };
+            let seed = match *f.first()? {
+                "zero0" => zero(0),
+                "zero1" => [0x8bb8_4b93_962e_acc9u64, 0xe703_7ed1_a0b4_28db]
+                    .iter()
+                    .find_map(|c| zero(*c)),
+                "max" => {
+                    static MAXSEED: std::sync::OnceLock<Option<u64>> =
+                        std::sync::OnceLock::new();
+                    *MAXSEED.get_or_init(|| {
+                        (0u64..(1 << 22))
+                            .map(|k| k.wrapping_mul(0x9e37_79b9_7f4a_7c15))
+                            .max_by(|a, b| {
+                                fastrand::Rng::with_seed(*a)
+                                    .f64()
+                                    .total_cmp(&fastrand::Rng::with_seed(*b).f64())
+                            })
+                    })
+                }
+                s => s.strip_prefix("seed:").and_then(|x| x.parse().ok()),
+            };
+            let Some(seed) = seed else {
+                return Some("noseed".into());
+            };
+            let fdraw = fastrand::Rng::with_seed(seed).f64();
+            let idraw = if bound > 0 {
+                fastrand::Rng::with_seed(seed).i64(0..bound).to_string()
+            } else {
+                String::new()
+            };
+            fastrand::seed(seed);
+            let src = format!("@use \"sass:math\";a{{i:math.random({limit})}}");
+            let res = match compile_str(&src, fmt()) {
+                Outcome::Ok(b) => format!(
+                    "ok:{}",
+                    values_of(&String::from_utf8_lossy(&b)).join(",")
+                ),
+                Outcome::Err(m) => format!("err:{}", hex(m.as_bytes())),
+            };
+            Some(format!(
+                "{res}\tseed={seed}\tf={}\ti={idraw}",
+                fdraw.to_bits()
+            ))
         }
         _ => None,
     }
